@@ -439,7 +439,8 @@ class Gen:
             if rng.random() < 0.25:
                 opts.append(('skip', rng.choice([None, (None, 0), _is_none])))
             if rng.random() < 0.15:
-                opts.append(('skip_exc', rng.choice([GlomError, (GlomError, ValueError), KeyError])))
+                # (the empty tuple is a value of its own: skip nothing)
+                opts.append(('skip_exc', rng.choice([GlomError, (GlomError, ValueError), KeyError, (), ()])))
             return ('coalesce', subs, opts)
         if c == 'call':
             keys = list(value)
@@ -459,8 +460,11 @@ class Gen:
                     parts.append(('C', [rng.choice([1, 'c', None]) for _ in range(rng.randint(0, 2))],
                                   [(kw, rng.randint(0, 9)) for kw in rng.sample(names, rng.randint(0, 2))]))
                 elif r < 0.75:
-                    parts.append(('S', [self._path(value) for _ in range(rng.randint(0, 2))],
-                                  [(kw, self._path(value)) for kw in rng.sample(names, rng.randint(0, 2))]))
+                    # (half of the sub-specs are logging callables: positional and keyword sub-specs of all groups are evaluated
+                    # in the order written, group by group)
+                    sub = lambda: self._path(value) if rng.random() < 0.5 else ('fn', self.fn(rng.choice(['pair', 'len', 'ident'])))
+                    parts.append(('S', [sub() for _ in range(rng.randint(0, 2))],
+                                  [(kw, sub()) for kw in rng.sample(names, rng.randint(0, 2))]))
                 elif all(isinstance(k, str) and k.isidentifier() for k in value):
                     parts.append(('*', None, ('t', [])))
             return ('invoke', self.fn('collect'), parts)
